@@ -14,7 +14,9 @@ EXPLANATION = ("E: slot layout tables of both SoCs (roles unique, slots pairwise
                "raw / absent) against a two-key role table and an arbitrary subset of stored roles: exactly one slot {0: 1, 1: off, 2: envelope} is added under the "
                "role of the manifest's class UUID, the 16 bytes at `off` ARE that UUID, it fits the slot, nothing else changes, and a rejection has one of the stated "
                "reasons; ImageCreator._create_suit_storage_files_for_boot for ANY number of envelopes (loop rule; callees by contract): every add_envelope call precedes "
-               "every file write (a rejection leaves no file), per domain exactly the map as_intelhex returned is written to <dir>/suit_installed_envelopes_<domain>_merged.hex. "
+               "every file write (a rejection leaves no file), per domain exactly the map as_intelhex returned is written to <dir>/suit_installed_envelopes_<domain>_merged.hex; "
+               "the public ImageCreator.create_files_for_boot for ANY number of input files (each input is loaded from its file and severed before anything is stored; "
+               "SuitEnvelope.load assumed). "
                "B: the whole `image boot` flow on generated envelopes read back with the independent HEX/CBOR readers (re-encoding identity of parsed "
                "envelopes, file writing, configuration over defaults are decided there). Level `other`.")
 FI = "suit_generator/cmd_image.py"
@@ -353,7 +355,7 @@ c.param("config_file", Opt(Str()))
 c.param("soc", OneOf(Const("nrf54h20"), Const("nrf9280"), Str()))
 
 
-def _boot_files_checks(it, ctx):
+def _boot_files_checks(it, ctx, dir_arg="dir_name"):
     from pyvc.values import VNone, VLib
     from pyvc.stubs_lib import _hexfns
     from pyvc import stubs
@@ -384,7 +386,7 @@ def _boot_files_checks(it, ctx):
     if len(hexw) != len(expect):
         return goals
     for (dom, r), w in zip(expect, hexw):
-        path = stubs.path_term(it, stubs.concat_str(stubs.concat_str(ctx.arg("dir_name"), __import__("pyvc.values", fromlist=["VStr"]).VStr("/suit_installed_envelopes_" + dom.lower() + "_merged.hex")),
+        path = stubs.path_term(it, stubs.concat_str(stubs.concat_str(ctx.arg(dir_arg), __import__("pyvc.values", fromlist=["VStr"]).VStr("/suit_installed_envelopes_" + dom.lower() + "_merged.hex")),
                                                     __import__("pyvc.values", fromlist=["VStr"]).VStr("")))
         goals.append((f"file_name[{dom}]", w[1] == path if not isinstance(w[1], bool) else z3.BoolVal(False)))
         st = w[2].e if hasattr(w[2], "e") else w[2]
@@ -400,6 +402,70 @@ c.raises("ValueError")
 c.raises("KeyError")
 c.raises("SystemExit")
 c.raises("FileNotFoundError")  # missing output directory
+c.raises("intelhex.AddressOverlapError")
+
+
+# ------------------------------------------------------------------------------------------------
+# The public entry: ImageCreator.create_files_for_boot for ANY number of input files.  SuitEnvelope.load is ASSUMED (sets _envelope to
+# some description of the envelope shape; reads only) - parsing is C03/C17's; sever() and the orchestration above by their contracts /
+# bodies.  Statement: the same trace-order and file clauses, now including the exception mapping of the public function.
+_DESC_T = DictT(required={"SUIT_Envelope_Tagged": DictT(optional={m: Str() for m in ALL_MEMBERS})})
+c = Contract(FE, "SuitEnvelope.load", ["C07"])
+c.model_only = True
+c.modular_only_reason = "file reading + parsing (C03/C17): assumed to set _envelope to a description of the envelope shape and to write nothing"
+c.scope = {"C07"}
+c.param("self", Obj(FE, "SuitEnvelope"))
+c.param("file_name", Str())
+c.param("input_type", Str())
+c.modifies(**{"self._envelope": _DESC_T})
+c.raises("FileNotFoundError")
+c.raises("ValueError")
+c.raises("AttributeError")
+
+REGISTRY[(FI, "ImageCreator._create_suit_storage_files_for_boot")].callers_inline = True  # it writes files: its caller executes the body
+
+
+def _input_files(it, env):
+    from pyvc import shapes
+    from pyvc.types import make_value, SeqStr
+    return make_value(it, SeqStr(), "input_files")
+
+
+def _load_then_sever(it, env, mark):
+    """One arbitrary input file: the envelope that is collected was loaded from THAT file and severed, in this order; nothing is written."""
+    calls = [t for t in it.trace[mark:] if t[0] == "call" and t[1] in ("SuitEnvelope.load", "SuitEnvelope.sever")]
+    ok = len(calls) == 2 and calls[0][1] == "SuitEnvelope.load" and calls[1][1] == "SuitEnvelope.sever" and calls[0][2]["self"] is calls[1][2]["self"]
+    goals = _no_write_so_far(it, env, mark) + [("each_input_is_loaded_then_severed", ok)]
+    if ok:
+        fn = calls[0][2]["file_name"]
+        goals.append(("loaded_from_the_named_file", fn.e == it._loop_elem.e if hasattr(fn, "e") and hasattr(it._loop_elem, "e") else False))
+    return goals
+
+
+def _boot_public_checks(it, ctx):
+    goals = _boot_files_checks(it, ctx, dir_arg="storage_output_directory")
+    if goals is None:
+        return None
+    loads = [i for i, t in enumerate(it.trace) if t[0] == "call" and t[1] == "SuitEnvelope.load"]
+    adds = [i for i, t in enumerate(it.trace) if t[0] == "call" and t[1] == "EnvelopeStorage.add_envelope"]
+    goals.append(("every_input_is_loaded_before_anything_is_stored", z3.BoolVal(all(i < j for i in loads for j in adds))))
+    return goals
+
+
+c = Contract(FI, "ImageCreator.create_files_for_boot", ["C07"])
+c.param("input_files", Computed(_input_files))
+c.param("storage_output_directory", Str())
+c.param("storage_address", Int(0, 2 ** 32 - 1))
+c.param("config_file", Opt(Str()))
+c.param("soc", OneOf(Const("nrf54h20"), Const("nrf9280"), Str()))
+c.check("files", _boot_public_checks)
+from pyvc.shapes import AbsListT, InstT  # noqa: E402
+c.loops(envelopes=AbsListT(InstT(lambda it_: [__import__("pyvc.values", fromlist=["VClass"]).VClass(info=it_.get_class(FE, "SuitEnvelope"))])), body_check=_load_then_sever)
+c.raises("GeneratorError")  # incl. FileNotFoundError of a missing input / output directory, mapped by the function
+c.raises("SUITError")
+c.raises("ValueError")
+c.raises("KeyError")
+c.raises("SystemExit")
 c.raises("intelhex.AddressOverlapError")
 
 
@@ -631,4 +697,9 @@ def bounded(ctx):
 
 
 ASSUMPTIONS = ["IntelHex partial-map operations incl. the structural overlap laws; the HEX record encoding is inside the IntelHex assumption (read back with an independent reader in B)",
-               "re-encoding identity of created manifests / authentication wrappers is C03's (checked byte for byte in B)"]
+               "re-encoding identity of created manifests / authentication wrappers is C03's (checked byte for byte in B)",
+               "boot orchestration: at its call sites EnvelopeStorage.__init__ / add_envelope / as_intelhex are summarised by their frames (the constructor sets "
+               "_assignments/_base_address/_envelopes; add_envelope changes only _envelopes; as_intelhex returns None or some hex map and writes no file; each may raise "
+               "its declared exceptions) - the frames themselves are checked syntactically per function (frame obligations), not as full postconditions",
+               "add_envelope is proved on description templates (component id ['INSTLD_MFST', <class UUID>] by namespace/name or as 32 hex digits, first or last in the "
+               "manifest, or absent) with a two-key role table; other component-id forms and the description shapes outside the templates are the bounded stand-in's"]
